@@ -341,8 +341,8 @@ func phiSources(ph *ssa.Phi) map[*ssa.BasicBlock]ssa.Value {
 			if e == ssa.Value(ph) {
 				continue
 			}
-			if q, ok := e.(*ssa.Phi); ok {
-				rec(q)
+			if q, ok := e.(*ssa.Phi); ok && q.Block() != ph.Block() && ph.Block().Dominates(q.Block()) {
+				rec(q) // a join inside the loop body; a phi of the header itself is a value (e.g. the counter)
 				continue
 			}
 			if _, isConst := e.(*ssa.Const); isConst {
